@@ -16,42 +16,33 @@ Proof.
     + apply IH in H. simpl. lia.
 Qed.
 
+Lemma c12_value_length : forall value0 rest ub v r u,
+  c12_value value0 rest ub = (v, r, u) -> length r <= length rest.
+Proof.
+  intros value0 rest ub v r u H. unfold c12_value in H.
+  destruct value0 as [|q v1]; [inversion H; subst; lia|].
+  destruct (c12_is_quote q); [|inversion H; subst; lia].
+  destruct (c12_quote_cont q v1 rest ub) as [[v' r'] u'] eqn:Hq. inversion H; subst.
+  eapply c12_quote_cont_length. exact Hq.
+Qed.
+
 Lemma c12_ini_loop_total : forall fuel lines pt prefix seen ow ub,
   length lines < fuel ->
   c12_ir_status (c12_ini_loop fuel lines pt prefix seen ow ub) <> C12OutOfFuel.
 Proof.
   induction fuel as [|fuel IH]; intros lines pt prefix seen ow ub Hlen; [lia|].
-  simpl. destruct lines as [|line0 rest]; [simpl; discriminate|].
-  simpl in Hlen.
-  assert (Hrest : length rest < fuel) by lia.
-  destruct (c12_ltrim line0) as [|c line']; [apply IH; exact Hrest|].
-  destruct (Ascii.eqb c "#"); [apply IH; exact Hrest|].
-  destruct (Ascii.eqb c "[").
-  { destruct (c12_split_at "]" (c :: line')) as [[before after]|]; apply IH; exact Hrest. }
-  destruct (c12_split_at "=" (c12_before "#" (c :: line'))) as [[lhs rhs]|]; [|apply IH; exact Hrest].
-  destruct (c12_ltrim rhs) as [|q v1].
-  - destruct (existsb _ seen); [simpl; discriminate|].
-    destruct ow.
-    + destruct (c12_set _ _ _) as [pt' ok]. destruct ok; [apply IH; exact Hrest|simpl; discriminate].
-    + destruct (c12_has_key _ _) as [[|]|]; simpl; try discriminate.
-      * apply IH; exact Hrest.
-      * destruct (c12_set _ _ _) as [pt' ok]. destruct ok; [apply IH; exact Hrest|simpl; discriminate].
-  - destruct (c12_is_quote q).
-    + destruct (c12_quote_cont q v1 rest ub) as [[v r] u] eqn:Hq.
-      apply c12_quote_cont_length in Hq.
-      assert (Hr : length r < fuel) by lia.
-      destruct (existsb _ seen); [simpl; discriminate|].
-      destruct ow.
-      * destruct (c12_set _ _ _) as [pt' ok]. destruct ok; [apply IH; exact Hr|simpl; discriminate].
-      * destruct (c12_has_key _ _) as [[|]|]; simpl; try discriminate.
-        -- apply IH; exact Hr.
-        -- destruct (c12_set _ _ _) as [pt' ok]. destruct ok; [apply IH; exact Hr|simpl; discriminate].
-    + destruct (existsb _ seen); [simpl; discriminate|].
-      destruct ow.
-      * destruct (c12_set _ _ _) as [pt' ok]. destruct ok; [apply IH; exact Hrest|simpl; discriminate].
-      * destruct (c12_has_key _ _) as [[|]|]; simpl; try discriminate.
-        -- apply IH; exact Hrest.
-        -- destruct (c12_set _ _ _) as [pt' ok]. destruct ok; [apply IH; exact Hrest|simpl; discriminate].
+  cbn [c12_ini_loop]. destruct lines as [|line0 rest]; [cbn; discriminate|].
+  cbn in Hlen. assert (Hrest : length rest < fuel) by lia.
+  destruct (c12_classify line0) as [|p|k value0]; try (apply IH; exact Hrest).
+  destruct (c12_value value0 rest ub) as [[v r] u] eqn:Hv.
+  apply c12_value_length in Hv.
+  unfold c12_store.
+  destruct (existsb _ seen); [cbn; discriminate|].
+  destruct ow; cbv zeta.
+  - destruct (c12_set _ _ _) as [pt' ok]. destruct ok; [apply IH; lia|cbn; discriminate].
+  - destruct (c12_has_key _ _) as [[|]|]; cbn [negb]; try (cbn; discriminate).
+    + apply IH; lia.
+    + destruct (c12_set _ _ _) as [pt' ok]. destruct ok; [apply IH; lia|cbn; discriminate].
 Qed.
 
 (* "no hang": on every byte string, with every pre-existing tree and both overwrite modes, the line
@@ -60,3 +51,9 @@ Lemma c12_total : forall doc pt ow, c12_ir_status (c12_parse_ini doc pt ow) <> C
 Proof.
   intros. unfold c12_parse_ini, c12_parse_ini_lines. apply c12_ini_loop_total. lia.
 Qed.
+
+(* F-C12-2: the claim that the loop test never dereferences rbegin() of an empty string is false of the code:
+   the document consisting of k, =, and one double quote reaches the loop test with an empty value *)
+Lemma c12_undefined_read_reachable :
+  exists doc, c12_ir_ub (c12_parse_ini doc c12_empty true) = true.
+Proof. exists ["k"; "="; """"]%char. vm_compute. reflexivity. Qed.
